@@ -9,10 +9,11 @@ the "Type parsers" of `parser.rs` and of the type printer of `format.rs`; lemmas
                                                     the same function as the old alternative order
   parseType_total, parseBaseType_total, typeAlias_total     (T1) totality + progress + located errors
   parseType_wf, parseTypeF_wf, parseBaseType_wf, typeAlias_wf   parser outputs satisfy WFType
-  RoundTripStatement (full), roundtrip_partial             (T2) parse (print t ++ rest) = (t, rest)
+  roundtrip (= RoundTripStatement, FULL), roundtrip_factored, parse_print_parse, roundtrip_partial
+                                                            (T2) parse (print t ++ rest) = (t, rest)
   d3_dea6b02_only_rule_breaks_roundtrip                     the dea6b02-only printing rule breaks T2 (D3)
   d1_old_print_rule_breaks_roundtrip                        the pre-dea6b02 printing rule breaks T2
-  PrintIdempotentStatement, print_idempotent_partial        (T3)
+  print_idempotent (= PrintIdempotentStatement, FULL), print_idempotent_partial   (T3)
 -/
 import QuiverModel.Lemmas.Parse.Factored
 import QuiverModel.Lemmas.Parse.WF
@@ -205,7 +206,8 @@ with a character that could continue a type (letters, digits, `_ ? ! < [ ( ' % /
 not whitespace followed by `(` (a bare tuple name is not accepted in front of that: defect D2), and
 after whitespace and comments there is no `|` or `&`. `WFType` is `Ty.wf` (decidable). -/
 
-/-- The full statement: every well-formed type AST is read back from its printed form. -/
+/-- The full statement: every well-formed type AST is read back from its printed form.
+    PROVED below: `roundtrip`. -/
 def RoundTripStatement : Prop :=
   ∀ t : Ty, WFType t → ∀ rest : Str, stopTd rest = true →
     parseType (printTy t ++ rest) = .ok t rest
@@ -216,9 +218,8 @@ def RoundTripStatement : Prop :=
     repairs dea6b02 / b32cfa9 —, `^` and `^N`, resources, the module's own default type `'` / `'<a, b>`, module types `'%m/n.t<a>`, tuples and PARTIAL types — named or not, with named, positional and SPREAD
     fields (`...`, `...'a<t>`), and tuples named after an alias (`'a[...'a, x: t]`) —, function types, unions and intersections, nested WITHOUT BOUND):
     the parser's model reads the printed text back to exactly the same AST and stops exactly at
-    `rest`. Missing case (the full statement is `RoundTripStatement`): process types. For
-    these the statement is evaluated on generated ASTs of every constructor by the harness (search,
-    not proof). -/
+    `rest`. Since the fourth round `Ty.frag` holds of EVERY type (`Ty.frag_all`: process types were
+    the last constructor), so this is the full statement: see `roundtrip`. -/
 theorem roundtrip_partial (t : Ty) (hw : WFType t) (hf : t.frag = true) (rest : Str)
     (hr : stopTd rest = true) : parseType (printTy t ++ rest) = .ok t rest := by
   have h := (knot_good t.lvT).td t hf hw (Nat.le_refl _) rest hr
@@ -230,6 +231,25 @@ theorem roundtrip_partial (t : Ty) (hw : WFType t) (hf : t.frag = true) (rest : 
     (max (t.lvT + 1) ((printTy t ++ rest).length + 1)) (by omega)
   rw [← h2, h1]
   exact h
+
+/-- **roundtrip** (T2, FULL STRENGTH = `RoundTripStatement`): for EVERY type AST `t` that satisfies
+    the decidable well-formedness predicate `WFType` (which every AST the parser returns satisfies:
+    `parseType_wf`) and EVERY text `rest` that cannot continue a type (`stopTd rest`, explicit and
+    decidable), parsing the printed type followed by `rest` returns exactly `t` and stops exactly at
+    `rest`. All eleven constructors, nested without bound; the printer is the one of /repo HEAD
+    (with the repairs dea6b02 and b32cfa9: `d1_…`, `d3_…` show that each is needed). -/
+theorem roundtrip : RoundTripStatement :=
+  fun t hw rest hr => roundtrip_partial t hw (Ty.frag_all t) rest hr
+
+/-- the same for the left-factored grammar, i.e. for the code since /repo 33df1c7 -/
+theorem roundtrip_factored (t : Ty) (hw : WFType t) (rest : Str) (hr : stopTd rest = true) :
+    parseTypeF (printTy t ++ rest) = .ok t rest := by
+  rw [partial_or_group_factored_eq]; exact roundtrip t hw rest hr
+
+/-- parse ∘ print ∘ parse = parse: what the parser returns is a fixpoint of print-then-parse -/
+theorem parse_print_parse (i : Str) (t : Ty) (r : Str) (h : parseType i = .ok t r) (rest : Str)
+    (hr : stopTd rest = true) : parseType (printTy t ++ rest) = .ok t rest :=
+  roundtrip t (parseType_wf i t r h) rest hr
 
 /-- the hypotheses are satisfiable by a non-trivial type: a nested union of named tuples with a
     function-typed field and a type parameter reference:
@@ -311,6 +331,22 @@ example : parseType (printTy exampleTy6) = .ok exampleTy6 [] := by
   have := roundtrip_partial exampleTy6 (by decide +kernel) (by decide +kernel) [] (by decide +kernel)
   simpa using this
 
+/-- process types, all four forms, in receive, return, member, field and function position:
+    `(@(@'a -> @) -> (@-> 'r)) | @ & 'x | #@'m -> (@ | [@, @'t])` -/
+def exampleTy7 : Ty :=
+  .union [
+    .proc (some (.proc (some (.ident "a".toList [])) (some (.proc none none))))
+      (some (.proc none (some (.ident "r".toList [])))),
+    .inter [.proc none none, .ident "x".toList []],
+    .func (.proc (some (.ident "m".toList [])) none)
+      (.union [.proc none none, .tuple none [.field none (.proc none none),
+        .field none (.proc (some (.ident "t".toList [])) none)] false])]
+
+example : printTy exampleTy7 =
+    "((@(@'a -> @) -> (@-> 'r)) | @ & 'x | (#@'m -> (@ | [@, @'t])))".toList := by decide +kernel
+example : parseType (printTy exampleTy7 ++ "\n".toList) = .ok exampleTy7 "\n".toList :=
+  roundtrip exampleTy7 (by decide +kernel) _ (by decide +kernel)
+
 /-- the side condition is necessary: behind a bare tuple name, a line that starts with `(` makes the
     whole alias unreadable (defect D2, repaired in the formatter by 63d9fac) -/
 theorem stop_condition_necessary :
@@ -344,7 +380,7 @@ theorem d3_dea6b02_only_rule_breaks_roundtrip :
 
 /-! ## (T3) print idempotence -/
 
-/-- the full statement -/
+/-- the full statement (PROVED below: `print_idempotent`) -/
 def PrintIdempotentStatement : Prop :=
   ∀ t : Ty, WFType t → ∀ t' rest, parseType (printTy t) = .ok t' rest → printTy t' = printTy t
 
@@ -357,6 +393,10 @@ theorem print_idempotent_partial (t : Ty) (hw : WFType t) (hf : t.frag = true) (
   rw [this] at h
   injection h with h1 _
   rw [← h1]
+
+/-- **print_idempotent** (T3, full strength) -/
+theorem print_idempotent : PrintIdempotentStatement :=
+  fun t hw t' rest h => print_idempotent_partial t hw (Ty.frag_all t) t' rest h
 
 example : ∀ t' rest, parseType (printTy exampleTy) = .ok t' rest → printTy t' = printTy exampleTy :=
   fun t' rest => print_idempotent_partial exampleTy (by decide +kernel) (by decide +kernel) t' rest
